@@ -498,8 +498,14 @@ func (c *tunnelChannel) recvLoop() {
 			return
 		}
 		supportedRevisions := c.tunnelOpts.supportedRevisions()
+		serverRevisions := settings.Settings.SupportedProtocolRevisions
+		if len(serverRevisions) == 0 {
+			// Per the protocol, this should never be empty, but if it is,
+			// the server must be assumed to only support revision zero.
+			serverRevisions = []tunnelpb.ProtocolRevision{tunnelpb.ProtocolRevision_REVISION_ZERO}
+		}
 		var supported bool
-		for _, rev := range settings.Settings.SupportedProtocolRevisions {
+		for _, rev := range serverRevisions {
 			switch {
 			case inSlice(rev, supportedRevisions):
 				if rev > c.useRevision {
